@@ -27,6 +27,24 @@ fn registry() -> Vec<(&'static str, RunFn, ReplayFn)> {
         ("C02", props::pm::run_c02, props::pm::replay),
         ("C12", props::pm::run_c12, props::pm::replay),
         ("C16", props::pm::run_c16, props::pm::replay),
+        ("C20", props::c20::run, props::c20::replay),
+        ("C21", props::c21::run, props::c21::replay),
+        ("C22", props::c22::run, props::c22::replay),
+        ("C23", props::c23::run, props::c23::replay),
+        ("C26", props::c26::run, props::c26::replay),
+        ("C30", props::c30::run, props::c30::replay),
+        ("C31", props::c31::run, props::c31::replay),
+        ("C32", props::c32::run, props::c32::replay),
+        ("C33", props::c33::run, props::c33::replay),
+        ("C34", props::c34::run, props::c34::replay),
+        ("C27", props::c27::run, props::c27::replay),
+        ("C28", props::c28::run, props::c28::replay),
+        ("C29", props::c29::run, props::c29::replay),
+        ("C35", props::c35::run, props::c35::replay),
+        ("C36", props::c36::run, props::c36::replay),
+        ("C03", props::sweep::run_c03, props::sweep::replay),
+        ("C04", props::sweep::run_c04_sweep, props::sweep::replay),
+        ("C05", props::sweep::run_c05, props::sweep::replay),
         ("C06", props::diff::run_c06, props::diff::replay),
         ("C07", props::diff::run_c07, props::diff::replay),
         ("C08", props::diff::run_c08, props::diff::replay),
@@ -154,7 +172,10 @@ fn main() {
             }
         }
         "worker" => {
-            eprintln!("no worker kinds yet");
+            if args.get(2).map(String::as_str) == Some("sweep") && args.len() >= 7 {
+                std::process::exit(props::sweep::worker_main(&args[3..]));
+            }
+            eprintln!("unknown worker kind");
             std::process::exit(2);
         }
         _ => usage(),
